@@ -291,11 +291,14 @@ def main():
     gen_unicode()
     gen_patterns()
     tables = os.path.join(os.path.dirname(os.path.abspath(__file__)), "gen_tables.py")
+    sys.path.insert(0, os.path.dirname(tables))
     if os.path.exists(tables):
-        sys.path.insert(0, os.path.dirname(tables))
         import gen_tables
 
         gen_tables.main(GEN, REPO, write_if_changed, Refuse)
+    import gen_psl
+
+    gen_psl.main(GEN, write_if_changed, Refuse)
     print("gen ok")
 
 
